@@ -15,6 +15,7 @@ import (
 	"go.lstv.dev/util/sem"
 	"go.lstv.dev/util/size"
 	"go.lstv.dev/util/uu"
+	"verif/firstuse"
 	"verif/libdefaults"
 	"verif/mc"
 )
@@ -426,6 +427,7 @@ func probeAgree(a agreeArg) (string, string) {
 func main() {
 	mc.Main("C17", "E2: explicit-state BFS over all histories of Unmarshal*/Scan/json/xml calls on one receiver per type, state = the real receiver value, run to the fix-point; E1: every short string over per-package alphabets through every parser entry point in its string, []byte and named-type instantiations; "+
 		"non-trivial = transition from a non-zero receiver state / input accepted by the entry point", func(r *mc.Run) {
+		firstuse.Phase(r, map[string][]string{"date": {"parse", "binary"}, "roman": {"parse"}, "sem": {"parse"}, "size": {"parse", "json"}, "uu": {"parse"}})
 		r.Reset = reset
 		reset()
 		deep := !r.Quick()
